@@ -524,6 +524,10 @@ class ExprMixin:
             return self.dhas(st, cont, item.t)
         if ty == "str":
             return z3.Contains(vs(cont.t), vs(item.t))
+        if ty is None or ty in self.reg.classes or (ty or "").startswith("type:"):
+            # membership in a value of unknown / user-defined container type (e.g. `x in EnumClass`): ghost predicate
+            f = z3.Function("contains_dyn", Val, Val, z3.BoolSort())
+            return f(cont.t, item.t)
         raise Unsupported(f"'in' on {cont.ty} at line {lineno}")
 
     def ev_JoinedStr(self, st, n):
